@@ -372,8 +372,8 @@ def seqitem(mod, sc, emit):
     cells are read back through a plain C++ accessor (raw(k), k = -3 .. n+2: items and guard cells)."""
     for hi, h in enumerate(sc["hists"]):
         emit({"at": hi})
-        o = mod.IVec(h["n"])
-        tgt = {"opidx": o, "seqprop": o.cells, "roidx": mod.RVec(h["n"]) if h["kind"] == "roidx" else None}[h["kind"]]
+        o = mod.IVec(h["n0"])
+        tgt = {"opidx": o, "seqprop": o.cells, "roidx": mod.RVec(h["n0"]) if h["kind"] == "roidx" else None}[h["kind"]]
         steps = []
         try:
             ln = len(tgt)
@@ -383,13 +383,16 @@ def seqitem(mod, sc, emit):
             try:
                 if op["op"] == "get":
                     r = tgt[op["i"]]
+                elif op["op"] == "del":
+                    del tgt[op["i"]]
+                    r = 0
                 else:
                     tgt[op["i"]] = op["v"]
                     r = 0
             except BaseException as e:      # noqa
                 r = "EXC " + type(e).__name__
             src = tgt if h["kind"] == "roidx" else o
-            steps.append([r, [src.raw(k) for k in range(-3, h["n"] + 3)]])
+            steps.append([r, [src.raw(k) for k in range(-3, h["n0"] + 3)]])
         emit({"h": hi, "len": ln, "steps": steps})
 
 
